@@ -261,6 +261,37 @@ func checkC15(c *Ctx, r *Report) {
 		r.add("C15.a", "no-reorder", fc+":register-after-compare", "an entry is registered only after all comparisons of its iteration (two distinct entries per conflict)", []string{fc}, s3, v3)
 	}
 
+	// normalisation: runs of slashes collapse, and no empty segment survives (a trailing slash is trimmed)
+	ruleSlashCollapse(c, r, "C15.a", pkgPaths+".normalizePath", "normalizePath collapses slash runs of any length (entries that differ only in repeated slashes are the same template)")
+	{
+		viol := "neither normalizePath nor splitSegments removes a trailing slash / empty segments (accepted idioms: strings.TrimRight/TrimSuffix(p, \"/\"), path.Clean, strings.FieldsFunc): `/users/` then has an empty last segment, so it is compared as a different template than `/users` and as overlapping with `/users/{id}`"
+		var sites []string
+		for _, k := range []string{pkgPaths + ".normalizePath", pkgPaths + ".splitSegments"} {
+			fi := need(c, r, "C15.a", k)
+			if fi == nil {
+				continue
+			}
+			ast.Inspect(fi.Decl, func(n ast.Node) bool {
+				cl, ok := n.(*ast.CallExpr)
+				if !ok {
+					return true
+				}
+				switch calleeOfCall(fi.Pkg.TypesInfo, cl) {
+				case "strings.TrimRight", "strings.TrimSuffix":
+					if len(cl.Args) == 2 && litString(cl.Args[1]) == "/" && k == pkgPaths+".normalizePath" {
+						viol = ""
+						sites = append(sites, w.pos(cl.Pos()))
+					}
+				case "path.Clean", "strings.FieldsFunc", "strings.Fields":
+					viol = ""
+					sites = append(sites, w.pos(cl.Pos()))
+				}
+				return true
+			})
+		}
+		r.add("C15.a", "idiom", pkgPaths+".normalizePath:no-empty-segment", "a trailing slash does not create an extra (empty) segment", []string{pkgPaths + ".normalizePath", pkgPaths + ".splitSegments"}, sites, viol)
+	}
+
 	// ---- C15.b completeness conditions visible in the code shape
 	ruleEach(c, r, "C15.b", fc,
 		func(fi *FuncInfo) func(ast.Expr) bool { return identNamed("newSegments") }, "newSegments",
